@@ -249,7 +249,7 @@ func runC05(c *core.Ctx, o Options) {
 		}
 		c.Check(okOrder, "K5", "Session.send", "number taken, then header stamped, then Router.Send", send.Pos(), "GetNextSeqNum → stamps → Router.Send", "a header stamp does not lie between taking the number and Router.Send on every path")
 		c.Check(storageSide(next.Call.Args[0]) == "outgoing", "K5", "Session.send", "the number comes from the outgoing counter", next.Pos(), "Side = outgoing", "the number is taken from side "+storageSide(next.Call.Args[0]))
-		msgName := send.Params[1].Name()
+		msgName := an.Render(send.Params[1])
 		want := map[string]string{
 			"SetFieldMsgSeqNum":    an.Render(next) + "#0",
 			"SetFieldTargetCompID": "s.LogonSettings.TargetCompID",
